@@ -163,11 +163,19 @@ func (w *W) c16Judge(k int, g string, doc []byte, nd bool) {
 	w.setKernel(r.Bool() && w.hasAVX512)
 	hasStr := false
 	// (a) copy mode, default options and explicit; sometimes on an object that was used in no-copy mode before
-	for variant := 0; variant < 3; variant++ {
+	for variant := 0; variant < 4; variant++ {
 		buf := append([]byte{}, doc...)
 		var pj *simdjson.ParsedJson
 		var err error
 		switch variant {
+		case 3:
+			// the same option given twice: the last one wins (a wrapper that puts its defaults
+			// first and the caller's options after them)
+			if nd {
+				pj, err = simdjson.ParseND(buf, nil, simdjson.WithCopyStrings(false), simdjson.WithCopyStrings(true))
+			} else {
+				pj, err = simdjson.Parse(buf, nil, simdjson.WithCopyStrings(false), simdjson.WithCopyStrings(true))
+			}
 		case 0:
 			if nd {
 				pj, err = simdjson.ParseND(buf, nil)
@@ -387,7 +395,16 @@ func (w *W) c16Judge(k int, g string, doc []byte, nd bool) {
 		if variant >= 2 || r.Chance(1, 3) {
 			cvr := observe(cl, true)
 			if od, e := simdjson.Parse([]byte(`{"recycled":["original","as","destination"],"n":[1,2,3.5,"`+string(bytes.Repeat([]byte("R"), r.Intn(300)))+`"]}`), nil); e == nil {
-				walk.Guard(func() error { od.Clone(src); return nil })
+				walk.Guard(func() error {
+					if variant == 2 {
+						// the source was a Deserialize destination: use it as one again
+						ser := simdjson.NewSerializer()
+						ser.Deserialize(ser.Serialize(nil, *od), src)
+						return nil
+					}
+					od.Clone(src)
+					return nil
+				})
 				w.Eval(1)
 				if d := sameView(cvr, observe(cl, true)); d != "" {
 					w.Violation(fmt.Sprintf("C16/clone-changed-when-original-was-recycled/variant%d", variant), fmt.Sprintf("other.Clone(original) changed the clone made from the original earlier: %s; doc=%s", d, q(doc)), cs)
